@@ -55,6 +55,7 @@ type c21Nt struct {
 type c21Gram struct {
 	nterms   int
 	inject   int    // injected terminal (0 = none)
+	inject2  int    // a second terminal injected as the same node type (0 = none)
 	injName  string
 	nts      []*c21Nt
 	ntypes   int
@@ -189,6 +190,23 @@ func (c *c21gen) seq(depth, n int) *c21Expr {
 			}
 		}
 	}
+	if c.rng.Intn(100) < 12 && !c.wild {
+		// two required fields in a row whose type sets overlap but differ: key is A or B, value is B or C (each accessor
+		// needs its own multi-type selector, and the second one has to fetch after the first)
+		ta, tb, tc := c.newType(), c.newType(), c.newType()
+		k1, k2, k3 := c.tok(), c.tok(), c.tok()
+		c.g.nfields++
+		key := fmt.Sprintf("f%d", c.g.nfields)
+		c.g.nfields++
+		val := fmt.Sprintf("f%d", c.g.nfields)
+		field := func(name, typ string, t *c21Expr) *c21Expr {
+			return &c21Expr{kind: ekSeq, sub: []*c21Expr{{kind: ekAssign, name: name, sub: []*c21Expr{{kind: ekArrow, name: typ, sub: []*c21Expr{{kind: ekTok, tok: t.tok}}}}}}}
+		}
+		p.sub = append(p.sub,
+			&c21Expr{kind: ekGroup, sub: []*c21Expr{field(key, ta, k1), field(key, tb, k2)}},
+			c.tok(),
+			&c21Expr{kind: ekGroup, sub: []*c21Expr{field(val, tb, k2), field(val, tc, k3)}})
+	}
 	return p
 }
 
@@ -198,6 +216,11 @@ func genC21GramOpt(rng *rand.Rand, wild bool) *c21Gram {
 	g := &c21Gram{nterms: 4 + rng.Intn(4)}
 	if rng.Intn(3) != 0 {
 		g.inject = 1 + rng.Intn(g.nterms-1)
+		if rng.Intn(3) == 0 {
+			if t := 1 + rng.Intn(g.nterms-1); t != g.inject {
+				g.inject2 = t
+			}
+		}
 		g.injName = "Inj"
 	}
 	n := 2 + rng.Intn(4)
@@ -305,7 +328,11 @@ func (g *c21Gram) toTM(name string) string {
 	}
 	sb.WriteString("invalid_token:\n\n:: parser\n\n%input N0;\n\n")
 	if g.inject > 0 {
-		fmt.Fprintf(&sb, "%%inject %s -> %s;\n\n", g.termName(g.inject), g.injName)
+		fmt.Fprintf(&sb, "%%inject %s -> %s;\n", g.termName(g.inject), g.injName)
+		if g.inject2 > 0 {
+			fmt.Fprintf(&sb, "%%inject %s -> %s;\n", g.termName(g.inject2), g.injName)
+		}
+		sb.WriteString("\n")
 	}
 	for _, c := range g.cats {
 		fmt.Fprintf(&sb, "%%interface %s;\n", c)
@@ -579,7 +606,7 @@ func c21Nest(op string, parts []string) string {
 func (g *c21Gram) childExpr(e *c21Expr, ids map[string]int) string {
 	switch e.kind {
 	case ekTok:
-		if e.tok == g.inject {
+		if e.tok == g.inject || (g.inject2 > 0 && e.tok == g.inject2) {
 			return sx.List("n", sx.Int(ids[g.injName]))
 		}
 		return "(e)"
